@@ -33,7 +33,7 @@ Core == { Reals("clm"), BM("set", "hdr", Val("str", "typ", "x", 0)), BM("set", "
           BM("set", "clm", Val("str", "sub", "s", 0)), BM("del", "clm", Val("int", "sub", W0, 0)),
           Iat(0), Iat(1), Iat(4), Iat(-1), Off("exp", 3600), OffW("exp", Century), OffW("nbf", WBig(1024, 5)), Off("exp", 0), Off("nbf", 60), Off("nbf", -5),
           BSetKeyOp("HS256", 0), BSetKeyOp("none", 1), BSetKeyOp("none", -1),
-          BSetCbOp(Prog1), ClockOp(WAdd(T0, WOf(1000))) }
+          BSetCbOp(Prog1), BSetCbOff, ClockOp(WAdd(T0, WOf(1000))) }
 Extra == { Reals("hdr"), BM("set", "hdr", Val("str", "kid", "k", 0)), BM("del", "hdr", Val("int", "typ", W0, 0)), BM("del", "hdr", Val("int", NONE, W0, 0)),
            BM("set", "clm", Val("str", "nbf", "text", 0)), BM("set", "clm", Val("bool", "admin", 1, 0)),
            Off("exp", 1), Off("exp", -5), OffW("exp", W2p31), OffW("nbf", Century), OffW("iat", WBig(1024, 5)), Off("nbf", 0), Off("iat", 10),
